@@ -25,6 +25,7 @@ import (
 	"github.com/slackhq/nebula/config"
 	"github.com/slackhq/nebula/header"
 	"github.com/slackhq/nebula/udp"
+	"go.yaml.in/yaml/v3"
 )
 
 var lhOverlay = map[string]netip.Addr{}
@@ -76,7 +77,9 @@ var lhDeniedRanges = []struct {
 	{netip.MustParsePrefix("10.128.0.0/24"), []netip.Prefix{netip.MustParsePrefix("192.0.2.200/32"), netip.MustParsePrefix("2001:db8:cafe::/48")}},
 }
 
+// An address is classified by what it is: an IPv4-mapped IPv6 spelling is the IPv4 address.
 func lhClass(peer netip.Addr, a netip.Addr) string {
+	a = a.Unmap()
 	for _, p := range lhMyNets {
 		if p.Contains(a) {
 			return "inOverlay"
@@ -99,7 +102,17 @@ func lhClass(peer netip.Addr, a netip.Addr) string {
 	return "ok"
 }
 
+// lhMappedBase: id + lhMappedBase is the IPv4 address id spelled as an IPv4-mapped IPv6 address (::ffff:a.b.c.d).
+const lhMappedBase = 100
+
 func lhUnder(id int) netip.AddrPort {
+	if id > lhMappedBase {
+		a, ok := lhUnderTab[id-lhMappedBase]
+		if !ok || !a.Is4() {
+			panic(fmt.Sprintf("verif: underlay id %d has no IPv4-mapped spelling", id))
+		}
+		return netip.AddrPortFrom(netip.AddrFrom16(a.As16()), lhPort)
+	}
 	a, ok := lhUnderTab[id]
 	if !ok {
 		panic(fmt.Sprintf("verif: unknown underlay id %d", id))
@@ -107,12 +120,30 @@ func lhUnder(id int) netip.AddrPort {
 	return netip.AddrPortFrom(a, lhPort)
 }
 
+// lhUnderBack names the address a destination IS (a destination spelled ::ffff:a.b.c.d is a.b.c.d at the socket).
 func lhUnderBack(a netip.AddrPort) int {
-	id, ok := lhUnderBackTab[a.Addr()]
+	id, ok := lhUnderBackTab[a.Addr().Unmap()]
 	if !ok || a.Port() != lhPort {
 		return -1
 	}
 	return id
+}
+
+// lhUnderBackSpelled keeps the spelling (cache entries, messages): the mapped spelling of id is id + lhMappedBase.
+func lhUnderBackSpelled(a netip.AddrPort) int {
+	id := lhUnderBack(a)
+	if id > 0 && a.Addr().Is4In6() {
+		return id + lhMappedBase
+	}
+	return id
+}
+
+// lhV6 is the harness' own reading of a V6AddrPort: the sixteen bytes as they are.
+func lhV6(ap *V6AddrPort) netip.AddrPort {
+	var b [16]byte
+	binary.BigEndian.PutUint64(b[:8], ap.Hi)
+	binary.BigEndian.PutUint64(b[8:], ap.Lo)
+	return netip.AddrPortFrom(netip.AddrFrom16(b), uint16(ap.Port))
 }
 
 func lhName(a netip.Addr) string {
@@ -159,6 +190,10 @@ type lhMsg struct {
 	V6   []int    `json:"v6"`
 	Rel  []string `json:"rel"`
 	Nd   bool     `json:"nd"`
+	// t = "Reload": the configuration is reloaded with lighthouse.hosts = Lhs; Flip: lighthouse.am_lighthouse in the file is
+	// the opposite of the role the node started with
+	Lhs  []string `json:"lhs"`
+	Flip bool     `json:"flip"`
 }
 
 type lhSend struct {
@@ -176,6 +211,8 @@ type lhEff struct {
 	Punches []int    `json:"punches"`
 	Back    []string `json:"back"`
 	Trig    []string `json:"trig"`
+	// punch destinations that were written in the IPv4-mapped spelling (they are the IPv4 address at the socket)
+	PunchMapped map[int]bool `json:"-"`
 }
 
 type lhCell struct {
@@ -221,7 +258,8 @@ func lhEncode(m *lhMsg) []byte {
 		}
 		for _, x := range m.V6 {
 			ap := lhUnder(x)
-			d.V6AddrPorts = append(d.V6AddrPorts, netAddrToProtoV6AddrPort(ap.Addr(), ap.Port()))
+			b := ap.Addr().As16() // (an IPv4-mapped spelling stays one)
+			d.V6AddrPorts = append(d.V6AddrPorts, &V6AddrPort{Hi: binary.BigEndian.Uint64(b[:8]), Lo: binary.BigEndian.Uint64(b[8:]), Port: uint32(ap.Port())})
 		}
 		for _, r := range m.Rel {
 			a := lhOverlay[r]
@@ -265,7 +303,7 @@ func lhDecode(to netip.Addr, p []byte) lhSend {
 		s.V4 = append(s.V4, lhUnderBack(protoV4AddrPortToNetAddrPort(a)))
 	}
 	for _, a := range d.V6AddrPorts {
-		s.V6 = append(s.V6, lhUnderBack(protoV6AddrPortToNetAddrPort(a)))
+		s.V6 = append(s.V6, lhUnderBackSpelled(lhV6(a)))
 	}
 	for _, r := range d.OldRelayVpnAddrs {
 		var b [4]byte
@@ -329,6 +367,8 @@ type lhNodeCfg struct {
 type lhNode struct {
 	t      testing.TB
 	l      *slog.Logger
+	cfg    lhNodeCfg
+	c      *config.C
 	lh     *LightHouse
 	lhh    *LightHouseHandler
 	w      *lhWriter
@@ -339,16 +379,8 @@ type lhNode struct {
 	cancel context.CancelFunc
 }
 
-// lhNewNode must be called inside a synctest bubble.
-func lhNewNode(t testing.TB, cfg lhNodeCfg) *lhNode {
-	l := slog.New(slog.NewTextHandler(io.Discard, nil))
-	nets := []netip.Prefix{netip.MustParsePrefix("10.128.0.1/16"), netip.MustParsePrefix("fd00:80::1/64")}
-	nt := new(bart.Lite)
-	for _, p := range nets {
-		nt.Insert(p.Masked())
-	}
-	cs := &CertState{myVpnNetworks: nets, myVpnNetworksTable: nt, initiatingVersion: cert.Version2}
-	c := config.NewC(l)
+// lhSettings is the configuration file of a node.
+func lhSettings(cfg lhNodeCfg) map[string]any {
 	hosts := []any{}
 	for _, h := range cfg.Lhs {
 		hosts = append(hosts, lhOverlay[h].String())
@@ -364,10 +396,6 @@ func lhNewNode(t testing.TB, cfg lhNodeCfg) *lhNode {
 			map[string]any{"mask": "192.0.2.0/24", "port": lhPort}, map[string]any{"mask": "10.128.7.0/24", "port": lhPort},
 			map[string]any{"mask": "203.0.113.0/24", "port": lhPort}, map[string]any{"mask": "198.51.100.0/24", "port": lhPort}}}
 	}
-	c.Settings["lighthouse"] = lhc
-	c.Settings["listen"] = map[string]any{"port": lhPort}
-	c.Settings["punchy"] = map[string]any{"punch": true, "respond": true, "delay": "1s", "respond_delay": "5s", "target_all_remotes": true}
-	c.Settings["preferred_ranges"] = []any{"192.0.2.2/32", "fd00:80::/64"}
 	shm := map[string]any{}
 	for k, ids := range cfg.Statics {
 		var l []any
@@ -376,10 +404,40 @@ func lhNewNode(t testing.TB, cfg lhNodeCfg) *lhNode {
 		}
 		shm[lhOverlay[k].String()] = l
 	}
-	c.Settings["static_host_map"] = shm
+	return map[string]any{
+		"lighthouse":       lhc,
+		"listen":           map[string]any{"port": lhPort},
+		"punchy":           map[string]any{"punch": true, "respond": true, "delay": "1s", "respond_delay": "5s", "target_all_remotes": true},
+		"preferred_ranges": []any{"192.0.2.2/32", "fd00:80::/64"},
+		"static_host_map":  shm,
+	}
+}
+
+func lhYAML(t testing.TB, cfg lhNodeCfg) string {
+	b, err := yaml.Marshal(lhSettings(cfg))
+	if err != nil {
+		t.Fatalf("verif: yaml: %v", err)
+	}
+	return string(b)
+}
+
+// lhNewNode must be called inside a synctest bubble.  The configuration is loaded from its YAML text, as nebula does,
+// so that a later reload (lhNode.reload) compares like with like.
+func lhNewNode(t testing.TB, cfg lhNodeCfg) *lhNode {
+	l := slog.New(slog.NewTextHandler(io.Discard, nil))
+	nets := []netip.Prefix{netip.MustParsePrefix("10.128.0.1/16"), netip.MustParsePrefix("fd00:80::1/64")}
+	nt := new(bart.Lite)
+	for _, p := range nets {
+		nt.Insert(p.Masked())
+	}
+	cs := &CertState{myVpnNetworks: nets, myVpnNetworksTable: nt, initiatingVersion: cert.Version2}
+	c := config.NewC(l)
+	if err := c.LoadString(lhYAML(t, cfg)); err != nil {
+		t.Fatalf("verif: configuration: %v", err)
+	}
 
 	ctx, cancel := context.WithCancel(context.Background())
-	n := &lhNode{t: t, l: l, w: &lhWriter{}, conn: &lhConn{}, trig: make(chan netip.Addr, 64), cancel: cancel}
+	n := &lhNode{t: t, l: l, cfg: cfg, c: c, w: &lhWriter{}, conn: &lhConn{}, trig: make(chan netip.Addr, 64), cancel: cancel}
 	n.punchy = NewPunchyFromConfig(l, c, n.conn)
 	lh, err := NewLightHouseFromConfig(ctx, l, c, cs, nil, n.punchy)
 	if err != nil {
@@ -394,6 +452,28 @@ func lhNewNode(t testing.TB, cfg lhNodeCfg) *lhNode {
 	n.hm = NewHostMapFromConfig(l, c)
 	n.punchy.Start(ctx, n.w, n.hm, lh)
 	return n
+}
+
+// reload is SIGHUP with an edited file (config.C.ReloadConfigString runs the callbacks the objects registered, among them
+// LightHouse.reload): lighthouse.hosts := lhs, lighthouse.am_lighthouse := am, static_host_map gains the entries of
+// `statics` (a lighthouse needs one).  Everything else in the file is unchanged and every object of the node is kept --
+// in particular the LightHouseHandler, which a reader routine creates once for its whole life.
+func (n *lhNode) reload(lhs []string, am bool, statics map[string][]int) {
+	cfg := n.cfg
+	cfg.Lhs, cfg.Am = append([]string{}, lhs...), am
+	cfg.Statics = map[string][]int{}
+	for k, v := range n.cfg.Statics {
+		cfg.Statics[k] = v
+	}
+	for k, v := range statics {
+		if _, ok := cfg.Statics[k]; !ok {
+			cfg.Statics[k] = v
+		}
+	}
+	if err := n.c.ReloadConfigString(lhYAML(n.t, cfg)); err != nil {
+		n.t.Fatalf("verif: reload: %v", err)
+	}
+	n.cfg = cfg
 }
 
 func (n *lhNode) close() {
@@ -415,6 +495,12 @@ func (n *lhNode) settle() lhEff {
 	seen := map[int]bool{}
 	for _, a := range n.conn.writes {
 		id := lhUnderBack(a)
+		if a.Addr().Is4In6() {
+			if e.PunchMapped == nil {
+				e.PunchMapped = map[int]bool{}
+			}
+			e.PunchMapped[id] = true
+		}
 		if !seen[id] {
 			seen[id] = true
 			e.Punches = append(e.Punches, id)
@@ -452,10 +538,10 @@ func lhCellOf(c *cache) lhCell {
 	}
 	if c.v6 != nil {
 		if c.v6.learned != nil {
-			out.L6 = lhUnderBack(protoV6AddrPortToNetAddrPort(c.v6.learned))
+			out.L6 = lhUnderBackSpelled(lhV6(c.v6.learned))
 		}
 		for _, a := range c.v6.reported {
-			out.V6 = append(out.V6, lhUnderBack(protoV6AddrPortToNetAddrPort(a)))
+			out.V6 = append(out.V6, lhUnderBackSpelled(lhV6(a)))
 		}
 	}
 	if c.relay != nil {
